@@ -316,14 +316,17 @@ def util(ctx):
             return sp.Integer(math.gcd(*[int(v) for v in a.ravel()]))
         return np.apply_along_axis(lambda row: sp.Integer(math.gcd(*[int(v) for v in row])), axis, a) if a.ndim > 1 else sp.Integer(math.gcd(*[int(v) for v in a]))
     for tag, batch in (('three indices', [[2, 4, 6], [3, 0, -9], [0, 0, 5], [7, -3, 2]]), ('four indices', [[2, 2, -4, 1], [2, -2, 0, 4], [0, 0, 0, 2], [4, -2, -2, 6], [-4, -4, 8, -3]]),
-                       ('single four-index vector', [2, 2, -4, 1])):
+                       ('single four-index vector', [2, 2, -4, 1]),
+                       ('a 3 x 3 block of three-index vectors', [[[3, 6, 9], [2, 0, 0], [4, 4, 4]], [[2, 4, 6], [0, 5, 0], [1, 2, 3]], [[6, 0, 3], [7, 7, 0], [0, 0, 8]]]),
+                       ('a 2 x 3 block of three-index vectors', [[[3, 6, 9], [2, 0, 0], [4, 4, 4]], [[2, 4, 6], [0, 5, 0], [10, -5, 15]]]),
+                       ('a 1 x 2 block of four-index vectors', [[[2, 2, -4, 6], [3, -3, 0, 9]]])):
         ev = SymEval(module_aliases(ctx.mod(MIL)))
         ev.np_override = {'numpy.gcd.reduce': gcd_model}
         try:
             r = _ret(ev.run_fn(ctx.fn(MIL, 'reduce_indices'), [arr(batch)], {}))
         except (Opaque, WouldRaise, ZeroDivisionError) as e:      # a zero divisor: numpy integer division yields zeros with a warning, wrong either way
             r = None
-        rows = np.atleast_2d(np.asarray(batch, dtype=object))
+        rows = np.asarray(batch, dtype=object).reshape(-1, np.shape(batch)[-1])
         want = np.array([[sp.Integer(v) / math.gcd(*[int(x) for x in row]) for v in row] for row in rows], dtype=object).reshape(np.shape(batch))
         ctx.ob('UTIL', loc + 'reduce_indices', '%s: each vector is divided by the gcd of all its indices (same direction, coprime)' % tag, r is not None and np.shape(r) == np.shape(batch) and equal(np.asarray(r, dtype=object), want, deep=False),
                'got %s' % (None if r is None else np.asarray(r).tolist(),), node=ctx.fn(MIL, 'reduce_indices'), key='reduce ' + tag)
